@@ -76,6 +76,7 @@ package netconf
 //@   modifies alloc()
 //@   assumed ensures result === selfClosed(b)
 //@   at call! ReplaceAll#1 assert #only-an-element-whose-opening-and-closing-names-agree-is-collapsed sm[1] == sm[3] && arg0 == b && arg1 == sm[0]
+//@   at call! ReplaceAll#1 assert #an-opening-tag-that-is-itself-self-closed-is-left-alone !hasSuffix(sm[2], "/")
 //@   loop 1 invariant rangeindex >= -1
 
 //@ func (*message).serialize [C03]
